@@ -43,10 +43,11 @@ def bounds(tier):
 def tasks(tier):
     ts = []
     for n in ((1, 2, 3, 4) if tier == "quick" else (1, 2, 3, 4, 5, 6)):
-        for own in (False, True):
-            ts.append({"name": f"wrapper:N{n}:{'own' if own else 'default'}", "fn": "t_wrapper",
+        for own in (False, True, "residual", "model"):
+            label = {False: "default", True: "own", "residual": "own-residual-only", "model": "own-model-only"}[own]
+            ts.append({"name": f"wrapper:N{n}:{label}", "fn": "t_wrapper",
                        "args": {"n": n, "own": own},
-                       "witnesses": ["ascending", "descending"] if n > 1 and not own else []})
+                       "witnesses": ["ascending", "descending"] if n > 1 and own is not True else []})
     for key in specs.PARAMS:
         for prop in ("translation", "baseline", "scaling", "continuity", "zero-residual"):
             ts.append({"name": f"{prop}:{key}", "fn": "t_shipped", "args": {"key": key, "prop": prop},
@@ -91,16 +92,19 @@ def t_wrapper(n, own):
     mod.valid_axes_y = ["force"]
     own_model = lambda params, delta: "own-model"
     own_resid = lambda params, delta, force, weight_cp=0: "own-residual"
-    if own:
+    if own is True or own == "model":
         mod.model = own_model
+    if own is True or own == "residual":
         mod.residual = own_resid
     before = set(nm.models_available)
     md = nm.register_model(mod)
     prove("registered-under-key", set(nm.models_available) == before | {"user_model"}
           and nm.models_available["user_model"] is md)
-    if own:
+    if own is True or own == "model":
         prove("own-model-kept", md.model is own_model and mod.model is own_model)
+    if own is True or own == "residual":
         prove("own-residual-kept", md.residual is own_resid)
+    if own is True:
         nm.deregister_model(md)
         prove("deregistered", set(nm.models_available) == before)
         return {"own": True}
@@ -115,8 +119,18 @@ def t_wrapper(n, own):
     P["E"].value, P["contact_point"].value, P["baseline"].value = E, cp, bl
     delta = symnp.SymArr(list(xs))
     force = symnp.SymArr(list(ys))
-    out = md.model(P, delta)
     asc = (xs[0] < xs[-1]) if n > 1 else False
+    if own == "model":
+        # generated residual around the module's own model function is not
+        # defined by the property (it wraps model_func, not `model`)
+        is_asc = core.decide(asc)
+        witness("ascending" if is_asc else "descending")
+        r = md.residual(P, delta, force, wcp)
+        prove("user-function-sees-approach-order", len(calls) == 1 and calls[0][0] >= calls[0][-1])
+        nm.deregister_model(md)
+        prove("deregistered", set(nm.models_available) == before)
+        return {"own": own}
+    out = md.model(P, delta)
     is_asc = core.decide(asc)
     witness("ascending" if is_asc else "descending")
     prove("user-function-called-once", len(calls) == 1)
@@ -131,6 +145,10 @@ def t_wrapper(n, own):
         prove(f"output-order[{i}]", same(out.elems[i], want[i]))
     prove("abscissa-unmodified", all(u is v for u, v in zip(xs, delta.elems)))
     calls.clear()
+    if own == "residual":
+        nm.deregister_model(md)
+        prove("deregistered", set(nm.models_available) == before)
+        return {"own": own, "ascending": is_asc}
     r = md.residual(P, delta, force, wcp)
     for i in range(n):
         wgt = core.sym_div(core.sym_abs(xs[i] - cp), wcp)
@@ -268,12 +286,24 @@ mod.model_key = "user_model"; mod.model_name = "user model"
 mod.parameter_keys = ["E", "contact_point", "baseline"]
 mod.parameter_names = ["Young's Modulus", "Contact Point", "Force Baseline"]
 mod.parameter_units = ["Pa", "m", "N"]; mod.valid_axes_x = ["tip position"]; mod.valid_axes_y = ["force"]
+own = {task["args"]["own"]!r}
+own_model = lambda params, delta: "own-model"
+own_resid = lambda params, delta, force, weight_cp=0: "own-residual"
+if own is True or own == "model": mod.model = own_model
+if own is True or own == "residual": mod.residual = own_resid
 before = set(nm.models_available)
 md = nm.register_model(mod)
 bad = []
+if own in (True, "model") and md.model is not own_model: bad.append("own model replaced")
+if own in (True, "residual") and md.residual is not own_resid: bad.append("own residual replaced")
 for xs in (np.array({xs!r}), np.array({xs!r})[::-1].copy()):
     x0 = xs.copy(); y = np.arange(len(xs)) * 1.0
     seen.clear()
+    if own is True: break
+    if own == "model":
+        md.residual(gpd(), xs, y, 0.5)
+        if len(seen) < 1 or seen[0][0] < seen[0][-1]: bad.append("user function saw ascending data")
+        continue
     out = md.model(gpd(), xs)
     asc = len(xs) > 1 and xs[0] < xs[-1]
     want = user_model_func(xs[::-1], 3000)[::-1] if asc else user_model_func(xs, 3000)
@@ -283,6 +313,7 @@ for xs in (np.array({xs!r}), np.array({xs!r})[::-1].copy()):
         bad.append("output order/shape")
     if not np.array_equal(xs, x0):
         bad.append("abscissa modified")
+    if own == "residual": continue
     r = md.residual(gpd(), xs, y, {g("weight_cp", 0.5)!r})
     wgt = np.minimum(1, np.abs(xs - 0) / {g("weight_cp", 0.5)!r})
     if not np.allclose(r, (y - want) * wgt):
